@@ -9,6 +9,7 @@ import PfVerif.Driver.Fit
 import PfVerif.Driver.Grad
 import PfVerif.Driver.Stoch
 import PfVerif.Driver.BSDual
+import PfVerif.Driver.Heap
 namespace PfVerif.Driver
 open Lean
 
@@ -43,6 +44,7 @@ def dispatch (op : String) (j : Json) : R Json :=
   | "grad" => opGrad j
   | "gen" => opGen j
   | "bs_dual" => opBsDual j
+  | "heap" => opHeap j
   | _ => .error s!"unknown op {op}"
 
 end PfVerif.Driver
